@@ -47,7 +47,7 @@ RULE = ("unit single: full product start state x event (first level of the searc
 ASSUMPTIONS = [
     "scope: 6 (quick) / 8 (thorough) start fields on 1-3-dimensional meshes with <= 12 cells and one subregion (one "
     "periodic, one with custom labels and a permuted mapping), 1-3 components, float and complex data, coded masks "
-    "(fixed, asymmetric), programs of <= 2 (quick) / 3 (thorough) events out of 72 (55-72 enabled per start state)",
+    "(fixed, asymmetric), programs of <= 2 (quick) / 3 (thorough) events out of 78 (58-78 enabled per start state)",
     "cell-mapping events (sel, [subregion], [Region], pad, resample, rotate90, HDF5, VTK) use the library's own data "
     "path as the reference for where cells go (C07/C12/C10/C16 decide whether that path is right)",
     "constant-mode padding: only the original cells are compared (whether a new cell filled with a constant is valid "
@@ -262,6 +262,13 @@ def build_events():
         add(f"diff-ax{ax}", "same", lambda f, o, ax=ax: f.diff(_dims(f)[ax]),
             enabled=lambda f, ax=ax: f.mesh.region.ndim > ax)
     add("diff2-ax0", "same", lambda f, o: f.diff(_dims(f)[0], order=2))
+    # the validity restriction of the stencil switched off: the RESULT still carries the operand's validity
+    add("diff-ax0-norestrict", "same", lambda f, o: f.diff(_dims(f)[0], restrict2valid=False))
+    add("diff2-axL-norestrict", "same", lambda f, o: f.diff(_dims(f)[-1], order=2, restrict2valid=False))
+    add("grad", "same", lambda f, o: f.grad, enabled=lambda f: f.nvdim == 1)
+    add("div", "same", lambda f, o: f.div, enabled=lambda f: f.nvdim == f.mesh.region.ndim and f.nvdim > 1)
+    add("curl", "same", lambda f, o: f.curl, enabled=lambda f: f.nvdim == 3 and f.mesh.region.ndim == 3)
+    add("laplace", "same", lambda f, o: f.laplace)
     add("np.sin", "same", lambda f, o: np.sin(f))
     add("np.negative", "same", lambda f, o: np.negative(f))
     add("mul-number", "same", lambda f, o: f * 2.0)
